@@ -519,41 +519,43 @@ def ref_job(job):
 MUTATIONS = ["cell", "column", "drop", "index", "fill"]
 
 
-def mutate_in_place(fr, how):
-    """what a caller may do to a frame it holds"""
+def mutate_in_place(fr, how, salt=0):
+    """what a caller may do to a frame it holds; `salt` makes every write different from the previous ones, so that a
+    repeated mutation changes the frame again"""
+    v = SENTINEL + salt
     if isinstance(fr, pd.Series):
         if how in ("drop",) and len(fr) > 2:
             fr.drop(fr.index[:2], inplace=True)
         elif how == "index":
             fr.index = fr.index + pd.Timedelta(hours=1)
         else:
-            fr.iloc[0] = SENTINEL
+            fr.iloc[0] = v
             if len(fr) > 3:
-                fr.iloc[-1] = -SENTINEL
+                fr.iloc[-1] = -v
         return
+    floats = [j for j in range(fr.shape[1]) if fr.dtypes.iloc[j].kind == "f"]
+    if how == "drop" and len(fr) <= 2:
+        how = "column"
+    if how in ("cell", "fill") and not floats:
+        how = "column"
     if how == "cell":
-        for j in range(fr.shape[1]):
-            if fr.dtypes.iloc[j].kind == "f":
-                fr.iloc[0, j] = SENTINEL
-                fr.iloc[-1, j] = -SENTINEL
+        for j in floats:
+            fr.iloc[0, j] = v
+            fr.iloc[-1, j] = -v
     elif how == "column":
-        fr["__caller_column__"] = 1.0
+        fr["__caller_column__"] = 1.0 + salt
         if "temperature" in fr.columns:
             fr["temperature"] = fr["temperature"] + 1000.0
     elif how == "drop":
-        if len(fr) > 2:
-            fr.drop(fr.index[:2], inplace=True)
-        else:
-            fr["__caller_column__"] = 1.0
+        fr.drop(fr.index[:2], inplace=True)
     elif how == "index":
         if isinstance(fr.index, pd.DatetimeIndex):
             fr.index = fr.index + pd.Timedelta(hours=1)
         else:
             fr.index = fr.index + 1
     else:
-        for c in fr.columns:
-            if fr[c].dtype.kind == "f":
-                fr.loc[:, c] = 0.0
+        for j in floats:
+            fr.isetitem(j, float(salt))
 
 
 class Snap:
@@ -737,7 +739,7 @@ def run_history(job):
                         rec["skipped"] = True
                         rec["alias_target"] = True
                     else:
-                        mutate_in_place(pool[k]["v"], how)
+                        mutate_in_place(pool[k]["v"], how, salt=step + 1)
             else:
                 rec["skipped"] = True
         except Exception as e:  # noqa
